@@ -247,3 +247,36 @@ Example paths_nonvacuous :
   path_of Mainnet (AccountSigningKey 0 2147483648 7) = None.
 Proof. split; [cbn; unfold u32; repeat split; reflexivity|split; reflexivity]. Qed.
 Print Assumptions paths_nonvacuous.
+
+(** ** Compressed G1 point codec (model of [Deserial]/[Serial] for [ArkGroup<G1Projective>]) *)
+From CB Require Import Crypto.G1Decode.
+From CB Require Import Crypto.G1DecodeProofs.
+
+(** Every byte string the decoder accepts re-encodes to itself (no non-canonical encoding is
+    accepted: flags, x >= p, the unused sort flag of infinity, junk under the infinity flag). *)
+Theorem g1_decode_canonical : forall bs P, g1_decode bs = Some P -> g1_encode P = bs.
+Proof. exact g1_decode_canonical_lemma. Qed.
+Print Assumptions g1_decode_canonical.
+
+(** Everything the decoder returns is a valid point: reduced coordinates, on the curve
+    y^2 = x^3 + 4, and it passes the subgroup check [r]P = O. *)
+Theorem g1_decode_valid : forall bs P, g1_decode bs = Some P -> g1_valid P.
+Proof. exact g1_decode_valid_lemma. Qed.
+Print Assumptions g1_decode_valid.
+
+(** The point at infinity has exactly one accepted encoding, c0 00 ... 00. *)
+Theorem g1_infinity_unique_encoding : forall bs,
+  g1_decode bs = Some G1Inf <-> bs = 192%N :: repeat 0%N 47.
+Proof. exact g1_infinity_unique_lemma. Qed.
+Print Assumptions g1_infinity_unique_encoding.
+
+(** Round trip for every valid point.  Premises [g1_field_facts]: p is prime and Fermat's little
+    theorem holds for p - two facts of arithmetic about the constant that are not proved in Coq. *)
+Theorem g1_decode_encode : g1_field_facts -> forall P, g1_valid P -> g1_decode (g1_encode P) = Some P.
+Proof. exact g1_decode_encode_lemma. Qed.
+Print Assumptions g1_decode_encode.
+
+(** Non-vacuity: the generator of G1 satisfies the validity predicate. *)
+Example g1_valid_nonvacuous : g1_valid g1_gen.
+Proof. exact g1_gen_valid. Qed.
+Print Assumptions g1_valid_nonvacuous.
